@@ -71,6 +71,21 @@ def _case(draw):
             shape = "polygon"
     else:
         shape = "polygon" if shape == "missing" else shape
+    if others and shape in ("polygon", "segment", "point") and draw(st.integers(0, 5)) == 0:
+        # a constraint over the fixed variables only: slack, exactly tight, violated by 2^-21 (about 5e-7) or clearly violated
+        o = draw(st.sampled_from(others))
+        k = float(draw(st.sampled_from([1, -1, 2, 0.5])))
+        how = draw(st.sampled_from(["slack", "tight", "tight", "tiny-violated", "tiny-violated", "violated"]))
+        co = {o: k}
+        if len(others) > 1 and draw(st.booleans()):
+            co[[q for q in others if q != o][0]] = float(draw(st.sampled_from([1, -1])))
+        base = gens.dot(co, vals)
+        if how == "tiny-violated" and draw(st.booleans()):
+            vals[o] = vals[o] + (2.0 ** -21) * (1 if k > 0 else -1)     # the value, not the constant, is off by a hair
+            terms.append([co, float(base)])
+        else:
+            terms.append([co, float(base + {"slack": 1, "tight": 0, "tiny-violated": -2.0 ** -21, "violated": -1}[how])])
+        shape = shape + "+fixed-" + how
     terms = list(draw(st.permutations(terms)))
     return {"terms": terms, "vals": vals, "xlim": [xl, xh], "ylim": [yl, yh], "shape": shape, "prime": draw(st.integers(0, 2)) == 0}
 
